@@ -409,6 +409,37 @@ class Tables:
             raise AnalysisError("cannot identify the validator class nested in create(): %r" % cands)
         return cands[0]
 
+    def _dict_items(self, mod, e, what, depth=0):
+        """(key expr, value expr) pairs of a dict-valued expression written as a literal, as dict(k=v, ...), dict({...}),
+        dict([(k, v), ...]) or as a module-level name bound once to one of these."""
+        if depth > 4:
+            raise AnalysisError("%s: dict expression too deep" % what)
+        if isinstance(e, ast.Dict):
+            if any(k is None for k in e.keys):
+                raise AnalysisError("%s: dict literal with ** unpacking" % what)
+            return list(zip(e.keys, e.values))
+        if isinstance(e, ast.Call) and isinstance(e.func, ast.Name) and e.func.id == "dict":
+            out = []
+            if len(e.args) == 1:
+                a = e.args[0]
+                if isinstance(a, (ast.List, ast.Tuple)) and all(isinstance(x, ast.Tuple) and len(x.elts) == 2 for x in a.elts):
+                    out += [(x.elts[0], x.elts[1]) for x in a.elts]
+                else:
+                    out += self._dict_items(mod, a, what, depth + 1)
+            elif e.args:
+                raise AnalysisError("%s: dict(...) with several positional arguments" % what)
+            for kw in e.keywords:
+                if kw.arg is None:
+                    out += self._dict_items(mod, kw.value, what, depth + 1)
+                else:
+                    out.append((ast.copy_location(ast.Constant(kw.arg), kw.value), kw.value))
+            return out
+        if isinstance(e, ast.Name):
+            r = self.prog.resolve_name(mod, e.id)
+            if isinstance(r, tuple) and r[0] == "expr" and len(r[1].bindings.get(e.id, [])) == 1:
+                return self._dict_items(r[1], r[2], what, depth + 1)
+        raise AnalysisError("%s is not a dict literal" % what)
+
     def _lambda_func(self, mod, node, qual):
         key = (mod.name, node.lineno, node.col_offset)
         if key not in self.lambdas:
@@ -437,9 +468,7 @@ class Tables:
                 d.version = version
                 # keyword table
                 v = args.get("validators")
-                if not isinstance(v, ast.Dict):
-                    raise AnalysisError("%s: validators= is not a dict literal" % name)
-                for k, fx in zip(v.keys, v.values):
+                for k, fx in self._dict_items(m, v, "%s: validators=" % name):
                     ks = const_str(k)
                     if ks is None:
                         raise AnalysisError("%s: non-constant keyword key %s" % (name, norm(k)))
@@ -538,10 +567,8 @@ class Tables:
                             arg = kw.value
                     if arg is None:
                         return {}
-                    if not isinstance(arg, ast.Dict):
-                        raise AnalysisError("TypeChecker(...) argument is not a dict literal")
                     out = {}
-                    for k, v in zip(arg.keys, arg.values):
+                    for k, v in self._dict_items(tmod, arg, "TypeChecker(...) argument"):
                         out[const_str(k)] = self._type_fn(tmod, v, const_str(k))
                     return out
                 if isinstance(fn, ast.Attribute):
@@ -562,9 +589,7 @@ class Tables:
                     if fn.attr == "redefine_many":
                         out = dict(base)
                         arg = expr.args[0]
-                        if not isinstance(arg, ast.Dict):
-                            raise AnalysisError("redefine_many argument is not a dict literal")
-                        for k, v in zip(arg.keys, arg.values):
+                        for k, v in self._dict_items(tmod, arg, "redefine_many argument"):
                             out[const_str(k)] = self._type_fn(tmod, v, const_str(k))
                         return out
             raise AnalysisError("cannot evaluate type checker expression %s" % norm(expr))
